@@ -176,7 +176,14 @@ func runSharedCallKeep(schema *ast.Schema, c *sharedCall) (res string, again fun
 	switch c.Op {
 	case "format":
 		var buf bytes.Buffer
-		formatter.NewFormatter(&buf).FormatSchema(schema)
+		var fopts []formatter.FormatterOption
+		switch c.Query { // (the options of a formatting call travel in the query field)
+		case "nodesc":
+			fopts = append(fopts, formatter.WithoutDescription())
+		case "builtin":
+			fopts = append(fopts, formatter.WithBuiltin(), formatter.WithComments())
+		}
+		formatter.NewFormatter(&buf, fopts...).FormatSchema(schema)
 		return hashOf(buf.String()), again
 	case "validate":
 		doc, err := parser.ParseQuery(&ast.Source{Input: c.Query, Name: "q.graphql"})
@@ -445,8 +452,8 @@ func checkC11(c *core.Ctx) {
 	}{{detSDL, detDocs}, {handRuleSDL, handRuleDocs}, {sharedDupSDL, sharedDupDocs}} {
 		var calls []sharedCall
 		for i, q := range hs.docs {
-			if i%25 == 24 || (i%3 == 1 && len(hs.docs) < 15) {
-				calls = append(calls, sharedCall{Op: "format"})
+			if i%25 == 24 || (i%3 == 1 && len(hs.docs) < 40) {
+				calls = append(calls, sharedCall{Op: "format", Query: []string{"", "nodesc", "", "builtin"}[(i/3)%4]})
 			}
 			calls = append(calls, sharedCall{Op: "validate", Query: q})
 		}
@@ -515,7 +522,7 @@ func checkC11(c *core.Ctx) {
 				var cl sharedCall
 				switch k := rng.Intn(10); {
 				case k == 0:
-					cl = sharedCall{Op: "format"}
+					cl = sharedCall{Op: "format", Query: []string{"", "nodesc", "builtin"}[rng.Intn(3)]}
 				case k < 4:
 					doc := dg.Doc()
 					if rng.Intn(2) == 0 {
@@ -825,13 +832,15 @@ enum Shade { DARK LIGHT }
 extend enum Shade { MID }
 interface Orphan { id: ID }
 interface Lonely implements Orphan { id: ID }
-type Query { book: Book node: Node thing: Thing shade(s: Shade = MID): Shade orphan: Orphan }
+"described, with a described argument"
+directive @tagged("the name" name: String = "n", "the weight" weight: Int = 1) on FIELD_DEFINITION | FIELD
+type Query { book: Book node: Node thing: Thing shade("which shade" s: Shade = MID, "how much" amount: Int = 2): Shade @tagged orphan: Orphan }
 `
 
 var sharedDupDocs = []string{
 	`{ book { name title nam } }`, `{ node { idd } }`, `{ node { ... on Entity { id } ... on Book { name } } }`, `{ thing { ... on Book { name } ... on Admin { id } nope } }`,
 	`{ book { ... on Named { name } ... on Titled { title } } }`, `{ shade(s: MIDD) }`, `{ node { ... on Draft { id } ... on User { id } } thing { __typename } }`,
-	`{ node { name } }`, `{ thing { name } }`, `{ book { ... on Node { id } } }`,
+	`{ node { name } }`, `{ thing { name } }`, `{ book { ... on Node { id } } }`, `{ thing { title } }`, `{ node { title } }`, `{ thing { title name id } node { title name } }`,
 	// interfaces nothing implements (no possible type at all): as type condition, as parent of a spread, as parent
 	// of an unknown field
 	`{ node { ... on Orphan { id } } }`, `{ orphan { idd ... on Lonely { id } ...F } } fragment F on Node { id }`, `{ orphan { ... on Book { name } } thing { ... on Lonely { id } } }`,
